@@ -1,6 +1,8 @@
 ENTRY = dict(
-    runner="C17", pkg="./cmd/c17", corr=["Corr.C17Corr"], n=dict(quick=660, thorough=1500), runner_timeout=900,
-    rule="every predefined parrot whose wire hello offers TLS 1.3 with a key_share (found at run time) over loopback TCP against "
+    runner="C17", pkg="./cmd/c17", corr=["Corr.C17Corr"], n=dict(quick=625, thorough=2000), runner_timeout=900,
+    rule="every predefined parrot whose wire hello offers TLS 1.3 with a key_share (found at run time), plus custom specs derived from the "
+         "parrots that list a hybrid group with the key_share list replaced by hybrid-only / hybrid+P-256 / P-256-only / GREASE+hybrid / "
+         "P-256+X25519 (HelloCustom + ApplyPreset), over loopback TCP against "
          "the scripted server (verif_server.go): a HelloRetryRequest for EACH classical group (X25519, P-256, P-384, P-521) the "
          "parrot lists in supported_groups without a share x cookie in {none, 1, 32, 255, 4094 bytes}, and x EVERY TLS 1.3 cipher suite the parrot "
          "offers (the server made to select 0x1301 / 0x1302 / 0x1303: SHA-256 and SHA-384 transcripts); one *tls.Config SHARED with a second "
@@ -12,7 +14,7 @@ ENTRY = dict(
          "HelloRetryRequest with neither group nor cookie. Both ClientHellos are cut out of the client's byte stream. "
          "Go-side oracle from the property text: handshake completes on the requested group with application data; header "
          "fields equal; all extensions except key_share/cookie/padding byte-identical and in the same order; exactly one fresh "
-         "share of the right size for the group; cookie echoed in exactly one extension iff sent; trailing pre_shared_key stays "
+         "share of the right size for the group (its bytes occur in no key_exchange string of the first hello, whole or as a part); cookie echoed in exactly one extension iff sent; trailing pre_shared_key stays "
          "last; cookie index within [0, len-3]; invalid HRR => client error and no second hello. Coq cases: CStep (every run: "
          "uconn.Extensions skeleton before/after incl. padding state), CWire (byte-exact both hellos from extcoq-rendered "
          "extension values; quick: one per parrot, thorough: all but the 4094-byte cookies), CReject (alert = process_hrr). "
